@@ -132,6 +132,9 @@ type wlMerge struct {
 	// Scribble: the same list is merged once before, and the caller writes all
 	// over the model (or the error list) it got back.
 	Scribble bool `json:"scribble,omitempty"`
+	// ReuseList: the same []ModuleFile value was merged before with other
+	// contents, which the caller then replaced in place.
+	ReuseList bool `json:"reuse_list,omitempty"`
 }
 
 var (
@@ -270,7 +273,7 @@ func genModuleSetOpt(r *rng, wantConflicts int, crowd bool) *wlMerge {
 	// a module file must declare something the grammar accepts; empty files
 	// (header only) are legal modules and are kept.
 	if r.chance(2) {
-		files[r.intn(len(files))].LongLine = []int{5000, 70000, 140000}[r.intn(3)]
+		files[r.intn(len(files))].LongLine = []int{5000, 70000, 140000, 140000, 1100000}[r.intn(5)]
 	}
 	wl.Files = files
 
@@ -459,6 +462,18 @@ func genModuleSetOpt(r *rng, wantConflicts int, crowd bool) *wlMerge {
 				"module broken\n\ntype lone%d\n  relations\n    define a: [user]\n    define a: [user]\n",
 				"module broken\n\ntype lone%d\n\nextend type lone%d\n  relations\n    define a: [user]\n\nextend type lone%d\n  relations\n    define b: [user]\n",
 				"modul broken\n\ntype lone%d\n",
+				// several types each extended more than once in one file: several errors from one file
+				"module broken\n\ntype lone%d\n\ntype other%d\n\ntype third%d\n\nextend type third%d\n  relations\n    define a: [user]\n\nextend type lone%d\n  relations\n    define a: [user]\n\nextend type other%d\n  relations\n    define a: [user]\n\nextend type other%d\n  relations\n    define b: [user]\n\nextend type lone%d\n  relations\n    define b: [user]\n\nextend type third%d\n  relations\n    define b: [user]\n",
+				"module broken\n\ntype lone%d\n\ntype other%d\n\nextend type other%d\n  relations\n    define a: [user]\n\nextend type lone%d\n  relations\n    define a: [user]\n\nextend type lone%d\n  relations\n    define b: [user]\n\nextend type other%d\n  relations\n    define b: [user]\n\nextend type other%d\n  relations\n    define c: [user]\n",
+				// characters outside the alphabet of the language, placed where the
+				// text without them would be valid
+				"module broken\n\ntype lone%d$\n",
+				"module broken\n\ntype lone%d\n  relations\n    define a: [user];\n",
+				"module broken\u00a7\n\ntype lone%d\n",
+				"module broken\n\ntype lone%d\n  relations\n    define a: [user] ~\n",
+				"module broken\n\ntype lone%d\n  relations\n    define a: [user]\n^\n",
+				"module broken\n\ntype lone%d\n  relations\n    define a: [user] | \n",
+				"module broken\n\ntype lone%d @\n  relations\n    define a: [user]\n",
 			}
 			raw := raws[r.intn(len(raws))]
 			raw = strings.ReplaceAll(raw, "%d", fmt.Sprint(c))
